@@ -18,7 +18,9 @@ Judge(e) ==
           /\ (IF e.returned \/ e.blocked \/ e.panicked THEN TRUE ELSE PrintT(<<"DRIFT", l>>))
      ELSE \* goroutines after k renders bounded by a constant independent of k:
           \* what is alive after the first render (pool, runtime) plus a small slack
-          say(e.live <= e.first + 2, "goroutines-grow-with-the-number-of-renders")
+          /\ say(~(e.hung /\ e.blocked), "render-call-blocked-forever-after-earlier-renders")
+          /\ (IF e.hung /\ ~e.blocked THEN PrintT(<<"DRIFT", l>>) ELSE TRUE)
+          /\ (e.hung \/ say(e.live <= e.first + 2, "goroutines-grow-with-the-number-of-renders"))
 Next == /\ l <= Len(Trace) /\ l' = l + 1 /\ (IF Judge(Trace[l]) THEN TRUE ELSE TRUE)
 Spec == Init /\ [][Next]_l
 Report == l = Len(Trace) + 1 => PrintT(<<"CONSUMED", l - 1>>)
